@@ -208,6 +208,9 @@ static void make_s(Run &r, S &s, Tape &t)
 static void run_history(Tape &t, Ctx &cx, uint64_t fail_at, int mode, uint64_t *requests_out)
 {
     shim_install();
+    // allocator policy of this history: blocks always move on reallocation, or grow in place within their size class.
+    // A function of the tape (its length), so that no byte changes meaning.
+    g_shim.inplace = ((t.pos() + t.left()) & 1) != 0;
     g_shim.fail_at = fail_at;
     g_shim.mode = mode;
     Run r(cx);
